@@ -111,13 +111,20 @@ def doResolve (u : Universe) (base : String) : Res Go.Resolved :=
   let env : Go.Env := { st := u.st, reOk := Regex.compiles, loader := u.loader }
   Go.resolve env resolveFuel u.root base
 
+/-- the schemas the root's Resolved knows keep their content; every other object of the store (documents the Loader was never
+    asked for, …) is blanked: the Go `Resolved` has no record for them either, and the evaluation never reaches them. This is the
+    environment the model is run on, so the ranked/closed certificate below is about exactly what is evaluated. -/
+def knownStore (st : Store) (rs : Go.Resolved) : Store :=
+  let known : Array Bool := rs.infos.foldl (fun a e => if e.1 < a.size then a.set! e.1 true else a) (Array.replicate st.size false)
+  st.mapIdx fun i n => if known.getD i false then n else Go.emptyNode
+
 def mkVEnv (u : Universe) (rs : Go.Resolved) : Go.VEnv :=
-  { st := u.st, draft := rs.draft, infos := rs.infos, reMatch := Regex.matchString, hash := hashVal }
+  { st := knownStore u.st rs, draft := rs.draft, infos := rs.infos, reMatch := Regex.matchString, hash := hashVal }
 
 /-- the Spec environment read off the resolution tables -/
 def mkSpecEnv (u : Universe) (rs : Go.Resolved) : Spec.Env :=
   let info (s : NodeId) : Option Go.Info := Go.lookupNat s rs.infos
-  { st := u.st, draft := rs.draft,
+  { st := knownStore u.st rs, draft := rs.draft,
     refTarget := fun s => (info s).bind (·.resolvedRef),
     dynInitial := fun s => (info s).bind (·.resolvedDynamicRef),
     dynName := fun s => ((info s).map (·.dynamicRefAnchor)).getD "",
